@@ -4,6 +4,7 @@ import (
 	"go/constant"
 	"go/token"
 	"go/types"
+	"sort"
 	"strings"
 
 	"golang.org/x/tools/go/ssa"
@@ -1149,6 +1150,13 @@ func c12(c *core.Ctx, r *core.Report) {
 	// under a step-counter guard; the random one also calls a captured func(int) int
 	closures := map[string]*ssa.Function{}
 	makers := map[string]*ssa.Function{} // the function that creates (and returns) the distributing function value
+	type distClosure struct {
+		fn, maker *ssa.Function
+		kind      string
+	}
+	var found []distClosure
+	siblingOf := map[string]string{} // further closures of a kind → the kind
+	_ = siblingOf
 	for _, fn := range an.FuncsOfType(c, apiPkg, "RateFunction") {
 		if core.RelPkg(fn) != apkg {
 			continue
@@ -1188,8 +1196,30 @@ func c12(c *core.Ctx, r *core.Report) {
 				kind = "withRandomDistribution"
 			}
 		}
-		closures[kind] = fn
-		makers[kind] = maker
+		found = append(found, distClosure{fn, maker, kind})
+	}
+	// one closure per kind carries the kind's name (the one whose maker is called like it, else the first); a
+	// further distribution of the same kind (a sibling added next to them) is judged under its maker's name
+	sort.Slice(found, func(i, j int) bool { return found[i].maker.Name() < found[j].maker.Name() })
+	for _, kind := range []string{"withRegularDistribution", "withRandomDistribution"} {
+		for _, f := range found {
+			if f.kind == kind && f.maker.Name() == kind {
+				closures[kind], makers[kind] = f.fn, f.maker
+			}
+		}
+		for _, f := range found {
+			if f.kind != kind || closures[kind] == f.fn {
+				continue
+			}
+			key := f.maker.Name()
+			if closures[kind] == nil {
+				key = kind
+			}
+			closures[key], makers[key] = f.fn, f.maker
+			if key != kind {
+				siblingOf[key] = kind
+			}
+		}
 	}
 	durParam := func(fn *ssa.Function) *ssa.Parameter {
 		for _, p := range fn.Params {
@@ -1617,7 +1647,7 @@ func jitterFnOf(fn *ssa.Function, depth int) (*ssa.Function, ssa.Value) {
 	var cl *ssa.Function
 	var clVal ssa.Value
 	for _, ret := range an.Returns(fn) {
-		if len(ret.Results) != 1 {
+		if len(ret.Results) == 0 || len(ret.Results) > 2 || !an.IsNamed(ret.Results[0].Type(), apiPkg, "RateFunction") {
 			continue
 		}
 		v := an.Strip(ret.Results[0])
@@ -1648,7 +1678,7 @@ func isJitterMaker(c *core.Ctx, f *ssa.Function) bool {
 	if f.Name() == "WithJitter" {
 		return true
 	}
-	if f.Signature.Results().Len() != 1 || !an.IsNamed(f.Signature.Results().At(0).Type(), apiPkg, "RateFunction") {
+	if n := f.Signature.Results().Len(); n == 0 || n > 2 || !an.IsNamed(f.Signature.Results().At(0).Type(), apiPkg, "RateFunction") {
 		return false
 	}
 	base, _ := jitterFnOf(c.MustFn("internal/trigger/api", "WithJitter"), 3)
@@ -1755,6 +1785,78 @@ func c13(c *core.Ctx, r *core.Report) {
 			}
 			return false, ""
 		})
+	})
+	rule(r, "C13.R6", "the random term of the variation factor stays within [−1, 1]: in `1 + u·jitter/100` the source of u is a bounded draw (cos of anything, a uniform draw mapped into [−1, 1]) — a draw without a finite bound (normal, exponential) puts single values outside jitter % of what is due", func() {
+		if cl == nil {
+			panic(core.AnchorError{What: "WithJitter's jitter function"})
+		}
+		// the jitter percentage as the jitter function sees it: a captured float parameter of a maker, or a float
+		// field of the receiver set from one
+		isPercent := func(v ssa.Value) bool {
+			v = an.Strip(v)
+			if ld, ok := v.(*ssa.UnOp); ok && ld.Op == token.MUL {
+				v = ld.X
+			}
+			switch x := v.(type) {
+			case *ssa.FreeVar:
+				b := an.FreeVarBinding(x)
+				if al, isAl := b.(*ssa.Alloc); isAl {
+					if sts := an.StoresTo(al); len(sts) == 1 {
+						b = an.Strip(sts[0].Val)
+					}
+				}
+				p, isP := b.(*ssa.Parameter)
+				if !isP {
+					return false
+				}
+				bt, isB := p.Type().Underlying().(*types.Basic)
+				return isB && bt.Info()&types.IsFloat != 0
+			case *ssa.FieldAddr:
+				f := an.FieldOfAddr(x)
+				bt, isB := f.Type().Underlying().(*types.Basic)
+				if !isB || bt.Info()&types.IsFloat == 0 {
+					return false
+				}
+				// not the carry itself
+				for _, k := range cellsOf(cl) {
+					if k.fld != nil && an.SameField(k.fld, f) {
+						return false
+					}
+				}
+				return true
+			}
+			return false
+		}
+		n := 0
+		an.Instrs(cl, func(in ssa.Instruction) {
+			bo, ok := in.(*ssa.BinOp)
+			if !ok || bo.Op != token.MUL {
+				return
+			}
+			var u ssa.Value
+			switch {
+			case isPercent(bo.Y):
+				u = bo.X
+			case isPercent(bo.X):
+				u = bo.Y
+			default:
+				return
+			}
+			n++
+			iv := floatInterval(c, u, 8)
+			key := core.FuncName(cl) + "#variation-range"
+			switch {
+			case !iv.known:
+				r.Note(key, an.Pos(c, bo), "the range of the random term %s is not evaluated (%s)", an.D().Of(u), iv.why)
+			case iv.unbounded || iv.lo < -1 || iv.hi > 1:
+				r.Violation(key, an.Pos(c, bo), "the random term of the variation factor ranges over [%v, %v] (%s), not within [−1, 1]: single values leave jitter %% of the rate plus the carried remainder, and the running total leaves its fixed bound", iv.lo, iv.hi, iv.why)
+			default:
+				r.OK(key, an.Pos(c, bo), "random term within [%v, %v]", iv.lo, iv.hi)
+			}
+		})
+		if n == 0 {
+			r.Note(core.FuncName(cl)+"#variation-range", c.Pos(cl.Pos()), "no product of a random term and the jitter percentage found in the jitter function itself: the range of the random term is not decided")
+		}
 	})
 	rule(r, "C13.R3", "zero jitter is the identity: a return guarded by multiple == 0 returns the rate parameter itself (absence of the early return is not an alarm)", func() {
 		n := 0
